@@ -19,6 +19,7 @@ type zzChunkReader struct {
 	ioErr   error
 	reads   int
 	zeros   int
+	eofWithData bool // deliver the last bytes together with io.EOF (allowed by the io.Reader contract)
 }
 
 var zzIOErr = errors.New("disk on fire")
@@ -69,6 +70,9 @@ func (r *zzChunkReader) Read(p []byte) (int, error) {
 	}
 	copy(p, r.data[r.pos:r.pos+n])
 	r.pos += n
+	if r.eofWithData && r.pos == len(r.data) && r.failAt < 0 {
+		return n, io.EOF
+	}
 	if r.chunked && r.pos == len(r.data) && (r.failAt < 0) && zz.NondetBool("dataWithEOF") {
 		return n, io.EOF
 	}
